@@ -80,6 +80,25 @@ structure StrInj (S : Val → Prop) : Prop where
   ne : ∀ x, S x → pyStr x ≠ []
   refl : ∀ x, S x → eqv x x
 
+/-! ### the definition in the form of the specification -/
+
+theorem eqv_list (c c' : Cls) (xs ys : List Val) :
+    eqv (.list c xs) (.list c' ys) ↔ (c = c' ∧ eqvRecs xs (ys.filter isRec) ∧
+      (xs.filter (fun v => !isRec v)).Perm (ys.filter (fun v => !isRec v))) := by
+  simp [eqv]
+
+theorem eqv_dict (c c' : Cls) (kvs kvs' : List (Str × Val)) :
+    eqv (.dict c kvs) (.dict c' kvs') ↔ (c = c' ∧ eqvK kvs kvs' ∧ ∀ kv ∈ kvs', hasKey kv.1 kvs = true) := by
+  simp [eqv]
+
+/-- leaves: equal with equal type, `None` only equals `None` -/
+theorem eqv_leaf (a b : Val) (h : isPyScalar a = true ∨ a = .none) : eqv a b ↔ a = b := by
+  cases a <;> simp_all [isPyScalar, eqv]
+
+/-- a container is never equivalent to a value of another kind -/
+theorem eqv_kind (a b : Val) (h : tyOf a ≠ tyOf b) : ¬ eqv a b := by
+  cases a <;> cases b <;> simp_all [eqv, tyOf]
+
 /-! ### leaves -/
 
 theorem eqv_scalar {x y : Val} (hs : isPyScalar x = true) : eqv x y ↔ x = y := by
@@ -385,5 +404,425 @@ theorem eqvK_eq_common : ∀ (kvs o : List (Str × Val)),
     | some w =>
       simp only [Option.isSome_some, true_and]
       exact and_assoc.symm
+
+
+/-! ### the keyed comparison is exact -/
+
+mutual
+theorem sub_keyed_exact (cfg : Cfg) (h : NoOpts cfg) (hd : cfg.direct = false) (S : Val → Prop) (hS : StrInj S)
+    (site : Site) (p : Path) (v w : Val) (hv : isN0 v = true) (hw : isN0 w = true)
+    (hiv : ∀ z ∈ listItems v, S z) (hiw : ∀ z ∈ listItems w, S z)
+    (ht : tyOf v = tyOf w) (hs : isPyScalar v = false) :
+      ∃ r, sub cfg site p v w = .ok r ∧ (r.diffs = 0 ↔ eqv v w) :=
+  match v, w, hv, hw, hiv, hiw, ht, hs with
+  | .list c xs, w, hv, hw, hiv, hiw, ht, _ => by
+    cases w with
+    | list c' ys =>
+      simp only [isN0, Bool.and_eq_true, beq_iff_eq] at hv hw
+      obtain ⟨hc, hxs⟩ := hv
+      obtain ⟨hc', hys⟩ := hw
+      subst hc; subst hc'
+      simp only [listItems] at hiv hiw
+      have ho : ∀ e ∈ mkEntries 0 (ys.map key0) ys, e.1 = key0 e.2.2 ∧ GoodV S e.2.2 := by
+        intro e he
+        have hm := mkEntries_key0 ys 0 e he
+        have hl := listItemsL_mem ys e.2.2 hm.2
+        exact ⟨hm.1, isN0L_mem ys _ hys hm.2, fun z hz => hiw z (hl.1 z hz), fun hr => hiw _ (hl.2 hr)⟩
+      obtain ⟨r, hr, hiff⟩ := keyedWalk_keyed_exact cfg h hd S hS p (.list .n0 xs) (.list .n0 ys) xs
+        (mkEntries 0 (xs.map key0) xs) (mkEntries 0 (ys.map key0) ys) 0 hxs hiv ho
+      refine ⟨r, ?_, ?_⟩
+      · simp [sub, hd, excluded_noOpts h, keysOf_noOpts h, hr]
+      · rw [hiff (mkEntries_keys xs 0), mkEntries_vals]
+        simp [eqv, ListSpec]
+    | _ => simp [tyOf] at ht
+  | .dict c kvs, w, hv, hw, hiv, hiw, ht, _ => by
+    cases w with
+    | dict c' kvs' =>
+      simp only [isN0, Bool.and_eq_true, beq_iff_eq] at hv hw
+      obtain ⟨hc, hxs⟩ := hv
+      obtain ⟨hc', hys⟩ := hw
+      subst hc; subst hc'
+      simp only [listItems] at hiv hiw
+      obtain ⟨r, hr, hiff⟩ := dictWalk_keyed_exact cfg h hd S hS p (.dict .n0 kvs) (.dict .n0 kvs') kvs kvs' kvs true
+        hxs hys hiv hiw
+      refine ⟨r, ?_, ?_⟩
+      · simp [sub, hr]
+      · rw [hiff, dictTail_diffs_noOpts h]
+        simp only [eqv, true_and, eqvK_eq_common, List.all_eq_true]
+        exact and_assoc.symm
+    | _ => simp [tyOf] at ht
+  | .none, w, _, _, _, _, ht, _ => by
+    cases w <;> simp [tyOf] at ht
+    exact ⟨Res.empty, by simp [sub], by simp [eqv]⟩
+  | .bool _, _, _, _, _, _, _, hs => by simp [isPyScalar] at hs
+  | .int _, _, _, _, _, _, _, hs => by simp [isPyScalar] at hs
+  | .flt _, _, _, _, _, _, _, hs => by simp [isPyScalar] at hs
+  | .str _, _, _, _, _, _, _, hs => by simp [isPyScalar] at hs
+termination_by structural v
+
+theorem dictWalk_keyed_exact (cfg : Cfg) (h : NoOpts cfg) (hd : cfg.direct = false) (S : Val → Prop) (hS : StrInj S)
+    (p : Path) (sa oa : Val) (skvs okvs : List (Str × Val))
+    (kvs : List (Str × Val)) (still : Bool) (hk : isN0K kvs = true) (ho : isN0K okvs = true)
+    (hik : ∀ z ∈ listItemsK kvs, S z) (hio : ∀ z ∈ listItemsK okvs, S z) :
+      ∃ r, dictWalk cfg p sa oa skvs okvs still kvs = .ok r ∧
+        (r.diffs = 0 ↔ (commonP kvs okvs ∧ (dictTail cfg p sa oa skvs okvs true).diffs = 0)) :=
+  match kvs, still, hk, ho, hik, hio with
+  | [], still, _, _, _, _ => by
+    refine ⟨_, by rw [dictWalk], ?_⟩
+    simp [commonP, dictTail]
+  | (k, v) :: rest, still, hk, ho, hik, hio => by
+    simp only [isN0K, Bool.and_eq_true] at hk
+    have hik1 : ∀ z ∈ listItems v, S z := fun z hz => hik z (by simp [listItemsK, hz])
+    have hik2 : ∀ z ∈ listItemsK rest, S z := fun z hz => hik z (by simp [listItemsK, hz])
+    cases hl : Val.lookup k okvs with
+    | none =>
+      obtain ⟨r, hr, hiff⟩ := dictWalk_keyed_exact cfg h hd S hS p sa oa skvs okvs rest still hk.2 ho hik2 hio
+      refine ⟨r, by simp [dictWalk, hl, hr], ?_⟩
+      simpa [commonP, hl] using hiff
+    | some w =>
+      have hw := isN0K_lookup okvs k w ho hl
+      have hiw : ∀ z ∈ listItems w, S z := fun z hz => hio z (listItemsK_lookup okvs k w hl z hz)
+      have hce := classifyEntry_exactP h (p ++ [.key k]) v w
+      cases hcl : classifyEntry cfg (p ++ [.key k]) v w with
+      | emit r0 s =>
+        rw [hcl] at hce
+        obtain ⟨r, hr, hiff⟩ := dictWalk_keyed_exact cfg h hd S hS p sa oa skvs okvs rest (still && s) hk.2 ho hik2 hio
+        refine ⟨r0 ++ r, by simp [dictWalk, hl, hcl, hr], ?_⟩
+        simp only [ActExactP] at hce
+        simp only [append_diffs, Nat.add_eq_zero_iff, hiff, commonP, hl, hce]
+        exact and_assoc.symm
+      | descend =>
+        rw [hcl] at hce
+        obtain ⟨r1, hr1, hiff1⟩ := sub_keyed_exact cfg h hd S hS .entry (p ++ [.key k]) v w hk.1 hw hik1 hiw hce.1 hce.2
+        obtain ⟨r, hr, hiff⟩ := dictWalk_keyed_exact cfg h hd S hS p sa oa skvs okvs rest still hk.2 ho hik2 hio
+        refine ⟨r1 ++ r, by simp [dictWalk, hl, hcl, hr1, hr], ?_⟩
+        simp only [append_diffs, Nat.add_eq_zero_iff, hiff, hiff1, commonP, hl]
+        exact and_assoc.symm
+termination_by structural kvs
+
+theorem keyedWalk_keyed_exact (cfg : Cfg) (h : NoOpts cfg) (hd : cfg.direct = false) (S : Val → Prop) (hS : StrInj S)
+    (p : Path) (sa oa : Val) (xs : List Val) (sr orr : List KE) (i : Nat)
+    (hx : isN0L xs = true) (hix : ∀ z ∈ listItemsL xs, S z)
+    (ho : ∀ e ∈ orr, e.1 = key0 e.2.2 ∧ GoodV S e.2.2) :
+      ∃ r, keyedWalk cfg p sa oa i xs (xs.map key0) sr orr = .ok r ∧
+        (sr.map (fun e => e.1) = xs.map key0 → (r.diffs = 0 ↔ ListSpec xs (vals orr))) :=
+  match xs, sr, orr, i, hx, hix, ho with
+  | [], sr, orr, i, _, _, _ => by
+    refine ⟨keyedTail p sr orr, by simp [keyedWalk], ?_⟩
+    intro hsr
+    simp only [List.map_nil, List.map_eq_nil_iff] at hsr
+    subst hsr
+    rw [spec_nil]
+    simp [keyedTail, vals]
+  | x :: xs, sr, orr, i, hx, hix, ho => by
+    simp only [isN0L, Bool.and_eq_true] at hx
+    have hix1 : ∀ z ∈ listItems x, S z := fun z hz => hix z (by simp [listItemsL, hz])
+    have hix2 : ∀ z ∈ listItemsL xs, S z := fun z hz => hix z (by simp [listItemsL, hz])
+    have hxS : isRec x = false → S x := fun hr => hix x (by simp [listItemsL, hr])
+    have hinv : ∀ l : List KE, (∀ e ∈ l, e ∈ orr) → ∀ e ∈ l, e.1 = key0 e.2.2 := fun l hl e he => (ho e (hl e he)).1
+    cases hf : findKey (key0 x) orr with
+    | none =>
+      obtain ⟨r, hr, _⟩ := keyedWalk_keyed_exact cfg h hd S hS p sa oa xs sr orr (i + 1) hx.2 hix2 ho
+      refine ⟨r, by simp [keyedWalk, hf, hr], ?_⟩
+      intro hsr
+      have hge := keyedWalk_diffs_ge cfg p sa oa xs _ sr orr (i + 1) r hr
+      have hlen : sr.length = xs.length + 1 := by
+        have := congrArg List.length hsr
+        simpa using this
+      have hne := kfind_none orr _ hf
+      have hnot : ¬ ListSpec (x :: xs) (vals orr) := by
+        cases hrec : isRec x with
+        | true =>
+          rw [key0_rec hrec] at hne
+          exact spec_rec_none hrec (filter_rec_keys orr (fun e he => (ho e he).1) hne)
+        | false =>
+          apply spec_nonrec_none hrec
+          intro hm
+          simp only [vals, List.mem_map] at hm
+          obtain ⟨e, he, hex⟩ := hm
+          exact hne e he (by rw [(ho e he).1, hex])
+      constructor
+      · intro h0; omega
+      · intro hsp; exact absurd hsp hnot
+    | some jy =>
+      obtain ⟨j, y⟩ := jy
+      obtain ⟨l1, l2, horr, hl1, her⟩ := kfind_some orr _ j y hf
+      have hmem : (key0 x, j, y) ∈ orr := by rw [horr]; simp
+      have hy : GoodV S y := (ho _ hmem).2
+      have hky : key0 x = key0 y := (ho _ hmem).1
+      have ho' : ∀ e ∈ eraseKey (key0 x) orr, e.1 = key0 e.2.2 ∧ GoodV S e.2.2 := by
+        rw [her]
+        intro e he
+        apply ho
+        rw [horr]
+        simp only [List.mem_append, List.mem_cons] at he ⊢
+        cases he with
+        | inl h1 => exact Or.inl h1
+        | inr h1 => exact Or.inr (Or.inr h1)
+      obtain ⟨r', hr', hiff'⟩ := keyedWalk_keyed_exact cfg h hd S hS p sa oa xs (eraseKey (key0 x) sr)
+        (eraseKey (key0 x) orr) (i + 1) hx.2 hix2 ho'
+      have hpair : ∃ r1, keyedWalk cfg p sa oa i (x :: xs) ((x :: xs).map key0) sr orr = .ok (r1 ++ r') ∧
+          (r1.diffs = 0 ↔ eqv x y) := by
+        have hce := classifyItem_exactP h p (p ++ [if i = j then PSeg.idx i else PSeg.idx2 i j]) (p ++ [.idx i]) sa oa x y
+        cases hcl : classifyItem cfg p (p ++ [if i = j then PSeg.idx i else PSeg.idx2 i j]) (p ++ [.idx i]) sa oa x y with
+        | emit r0 s =>
+          rw [hcl] at hce
+          exact ⟨r0, by simp [keyedWalk, hf, hcl, hr'], hce⟩
+        | descend =>
+          rw [hcl] at hce
+          obtain ⟨r1, hr1, hiff1⟩ := sub_keyed_exact cfg h hd S hS .item
+            (p ++ [if i = j then PSeg.idx i else PSeg.idx2 i j]) x y hx.1 hy.1 hix1 hy.2.1 hce.1 hce.2
+          exact ⟨r1, by simp [keyedWalk, hf, hcl, hr1, hr'], hiff1⟩
+      obtain ⟨r1, hr1, hiff1⟩ := hpair
+      refine ⟨r1 ++ r', hr1, ?_⟩
+      intro hsr
+      have hiff2 := hiff' (kerase_keys hsr)
+      rw [her] at hiff2
+      rw [append_diffs, Nat.add_eq_zero_iff, hiff1, hiff2, horr]
+      cases hrec : isRec x with
+      | true =>
+        have hk0 : key0 y = [] := by rw [← hky, key0_rec hrec]
+        have hry : isRec y = true := by
+          cases hry : isRec y with
+          | true => rfl
+          | false =>
+            rw [key0_nonrec hry] at hk0
+            exact absurd hk0 (hS.ne y (hy.2.2 hry))
+        rw [key0_rec hrec] at hl1
+        have hn := filter_rec_keys l1 (hinv l1 (fun e he => by rw [horr]; simp [he])) hl1
+        exact (spec_rec_some hrec hry hn).symm
+      | false =>
+        have hkx : key0 x = pyStr x := key0_nonrec hrec
+        have hry : isRec y = false := by
+          cases hry : isRec y with
+          | false => rfl
+          | true =>
+            rw [key0_rec hry, hkx] at hky
+            exact absurd hky (hS.ne x (hxS hrec))
+        have hxy : x = y := by
+          apply hS.inj x y (hxS hrec) (hy.2.2 hry)
+          rw [← hkx, hky, key0_nonrec hry]
+        subst hxy
+        have hxx : eqv x x := hS.refl x (hxS hrec)
+        rw [spec_nonrec_some hrec]
+        simp [hxx]
+termination_by structural xs
+end
+
+
+/-! ### the entry point -/
+
+/-- the default comparison says "equal" exactly for trees that are equal up to the order of the
+non-record items of each list -/
+theorem default_exact (fl : Flags) (a b : Val) (ha : isN0 a = true) (hb : isN0 b = true) (hr : RootPair a b)
+    (hc : NoStrCollision a b) (hi : ItemsRefl a b) :
+    ∃ r, compareTop (Cfg.default fl false) a b = .ok r ∧ (r.diffs = 0 ↔ eqv a b) := by
+  rw [compareTop_eq_sub _ a b hr]
+  have hS : StrInj (fun z => z ∈ listItems a ++ listItems b) :=
+    ⟨fun x y hx hy => hc.1 x hx y hy, hc.2, hi⟩
+  exact sub_keyed_exact _ (noOpts_default fl false) rfl _ hS .entry [] a b ha hb
+    (fun z hz => List.mem_append_left _ hz) (fun z hz => List.mem_append_right _ hz)
+    (rootPair_ty hr).1 (rootPair_ty hr).2
+
+/-! ### `ItemsRefl` holds when dictionaries have unique keys -/
+
+def noDupK : List (Str × Val) → Bool
+  | [] => true
+  | (k, _) :: rest => !hasKey k rest && noDupK rest
+
+mutual
+/-- no dictionary of the tree repeats a key (true of every Python `dict`) -/
+def uniqKeys : Val → Bool
+  | .list _ xs => uniqKeysL xs
+  | .dict _ kvs => noDupK kvs && uniqKeysK kvs
+  | _ => true
+def uniqKeysL : List Val → Bool
+  | [] => true
+  | x :: xs => uniqKeys x && uniqKeysL xs
+def uniqKeysK : List (Str × Val) → Bool
+  | [] => true
+  | (_, v) :: rest => uniqKeys v && uniqKeysK rest
+end
+
+theorem hasKey_mem : ∀ (kvs : List (Str × Val)) (k : Str) (v : Val), (k, v) ∈ kvs → hasKey k kvs = true
+  | [], _, _, h => by cases h
+  | (k', v') :: rest, k, v, h => by
+    simp only [hasKey, Val.lookup]
+    split
+    · rfl
+    · cases h with
+      | head => rename_i hk; exact absurd rfl hk
+      | tail _ h' => exact hasKey_mem rest k v h'
+
+theorem noDupK_lookup : ∀ (kvs : List (Str × Val)) (k : Str) (v : Val), noDupK kvs = true → (k, v) ∈ kvs →
+    Val.lookup k kvs = some v
+  | [], _, _, _, h => by cases h
+  | (k', v') :: rest, k, v, hn, h => by
+    simp only [noDupK, Bool.and_eq_true, Bool.not_eq_true'] at hn
+    simp only [Val.lookup]
+    cases h with
+    | head => simp
+    | tail _ h' =>
+      split
+      · rename_i hk
+        subst hk
+        have := hasKey_mem rest k v h'
+        rw [hn.1] at this
+        cases this
+      · exact noDupK_lookup rest k v hn.2 h'
+
+mutual
+theorem eqv_refl_uniq (v : Val) (hu : uniqKeys v = true) : eqv v v :=
+  match v, hu with
+  | .list c xs, hu => by
+    simp only [uniqKeys] at hu
+    simp only [eqv, true_and]
+    exact ⟨eqvRecs_refl_uniq xs hu, List.Perm.refl _⟩
+  | .dict c kvs, hu => by
+    simp only [uniqKeys, Bool.and_eq_true] at hu
+    simp only [eqv, true_and]
+    refine ⟨eqvK_refl_uniq kvs kvs hu.2 (fun kv hkv => noDupK_lookup kvs kv.1 kv.2 hu.1 hkv), ?_⟩
+    intro kv hkv
+    exact hasKey_mem kvs kv.1 kv.2 hkv
+  | .none, _ => by simp [eqv]
+  | .bool _, _ => by simp [eqv]
+  | .int _, _ => by simp [eqv]
+  | .flt _, _ => by simp [eqv]
+  | .str _, _ => by simp [eqv]
+termination_by structural v
+
+theorem eqvRecs_refl_uniq (xs : List Val) (hu : uniqKeysL xs = true) : eqvRecs xs (xs.filter isRec) :=
+  match xs, hu with
+  | [], _ => by simp [eqvRecs]
+  | x :: xs, hu => by
+    simp only [uniqKeysL, Bool.and_eq_true] at hu
+    have ih := eqvRecs_refl_uniq xs hu.2
+    cases hr : isRec x with
+    | true =>
+      have hx := eqv_refl_uniq x hu.1
+      simp [eqvRecs, hr, hx, ih]
+    | false => simp [eqvRecs, hr, ih]
+termination_by structural xs
+
+theorem eqvK_refl_uniq (kvs o : List (Str × Val)) (hu : uniqKeysK kvs = true)
+    (hl : ∀ kv ∈ kvs, Val.lookup kv.1 o = some kv.2) : eqvK kvs o :=
+  match kvs, hu, hl with
+  | [], _, _ => by simp [eqvK]
+  | (k, v) :: rest, hu, hl => by
+    simp only [uniqKeysK, Bool.and_eq_true] at hu
+    have h1 := hl (k, v) (by simp)
+    simp only at h1
+    have hx := eqv_refl_uniq v hu.1
+    have ih := eqvK_refl_uniq rest o hu.2 (fun kv hkv => hl kv (List.mem_cons_of_mem _ hkv))
+    simp [eqvK, h1, hx, ih]
+termination_by structural kvs
+end
+
+mutual
+theorem uniq_items (v : Val) (hu : uniqKeys v = true) : ∀ z ∈ listItems v, uniqKeys z = true :=
+  match v, hu with
+  | .list c xs, hu => by
+    simp only [uniqKeys] at hu
+    simpa [listItems] using uniq_itemsL xs hu
+  | .dict c kvs, hu => by
+    simp only [uniqKeys, Bool.and_eq_true] at hu
+    simpa [listItems] using uniq_itemsK kvs hu.2
+  | .none, _ => by simp [listItems]
+  | .bool _, _ => by simp [listItems]
+  | .int _, _ => by simp [listItems]
+  | .flt _, _ => by simp [listItems]
+  | .str _, _ => by simp [listItems]
+termination_by structural v
+
+theorem uniq_itemsL (xs : List Val) (hu : uniqKeysL xs = true) : ∀ z ∈ listItemsL xs, uniqKeys z = true :=
+  match xs, hu with
+  | [], _ => by simp [listItemsL]
+  | x :: xs, hu => by
+    simp only [uniqKeysL, Bool.and_eq_true] at hu
+    intro z hz
+    simp only [listItemsL, List.mem_append] at hz
+    cases hz with
+    | inl hz =>
+      cases hz with
+      | inl hz =>
+        split at hz
+        · cases hz
+        · simp only [List.mem_singleton] at hz; subst hz; exact hu.1
+      | inr hz => exact uniq_items x hu.1 z hz
+    | inr hz => exact uniq_itemsL xs hu.2 z hz
+termination_by structural xs
+
+theorem uniq_itemsK (kvs : List (Str × Val)) (hu : uniqKeysK kvs = true) : ∀ z ∈ listItemsK kvs, uniqKeys z = true :=
+  match kvs, hu with
+  | [], _ => by simp [listItemsK]
+  | (k, v) :: rest, hu => by
+    simp only [uniqKeysK, Bool.and_eq_true] at hu
+    intro z hz
+    simp only [listItemsK, List.mem_append] at hz
+    cases hz with
+    | inl hz => exact uniq_items v hu.1 z hz
+    | inr hz => exact uniq_itemsK rest hu.2 z hz
+termination_by structural kvs
+end
+
+theorem itemsRefl_of_uniq (a b : Val) (ha : uniqKeys a = true) (hb : uniqKeys b = true) : ItemsRefl a b := by
+  intro x hx
+  rw [List.mem_append] at hx
+  cases hx with
+  | inl h => exact eqv_refl_uniq x (uniq_items a ha x h)
+  | inr h => exact eqv_refl_uniq x (uniq_items b hb x h)
+
+/-- the form for genuine Python values (dictionaries never repeat a key) -/
+theorem default_exact_uniq (fl : Flags) (a b : Val) (ha : isN0 a = true) (hb : isN0 b = true) (hr : RootPair a b)
+    (hua : uniqKeys a = true) (hub : uniqKeys b = true) (hc : NoStrCollision a b) :
+    ∃ r, compareTop (Cfg.default fl false) a b = .ok r ∧ (r.diffs = 0 ↔ eqv a b) :=
+  default_exact fl a b ha hb hr hc (itemsRefl_of_uniq a b hua hub)
+
+/-- a tree compared with itself reports nothing -/
+theorem default_refl (fl : Flags) (a : Val) (ha : isN0 a = true) (hr : RootPair a a)
+    (hua : uniqKeys a = true) (hc : NoStrCollision a a) :
+    ∃ r, compareTop (Cfg.default fl false) a a = .ok r ∧ r.diffs = 0 := by
+  obtain ⟨r, h1, h2⟩ := default_exact_uniq fl a a ha ha hr hua hua hc
+  exact ⟨r, h1, h2.2 (eqv_refl_uniq a hua)⟩
+
+
+/-! ### the hypotheses are needed -/
+
+/-- `{'a': [1, '1']}` -/
+def cexA : Val := .dict .n0 [(['a'], .list .n0 [.int 1, .str ['1']])]
+/-- `{'a': ['1', 1]}` -/
+def cexB : Val := .dict .n0 [(['a'], .list .n0 [.str ['1'], .int 1])]
+
+/-- finding C07-b: `{'a': [1, '1']}` and `{'a': ['1', 1]}` are equal up to order but `str(1) == str('1')`
+pairs `1` with `'1'`, so two differences are reported -/
+theorem collision_cex :
+    (compareTop (Cfg.default Flags.init false) cexA cexB).map Res.diffs = .ok 2 ∧ eqv cexA cexB ∧
+      isN0 cexA = true ∧ isN0 cexB = true ∧ RootPair cexA cexB ∧ uniqKeys cexA = true ∧ uniqKeys cexB = true := by
+  refine ⟨by decide, ?_, by decide, by decide, trivial, by decide, by decide⟩
+  simp [cexA, cexB, eqv, eqvK, Val.lookup, eqvRecs, isRec, hasKey]
+  exact List.Perm.swap _ _ _
+
+/-- `['', {}]` -/
+def cexE1 : Val := .list .n0 [.str [], .dict .n0 []]
+/-- `[{}, '']` -/
+def cexE2 : Val := .list .n0 [.dict .n0 [], .str []]
+
+/-- the empty string has the key of a record: `['', {}]` vs `[{}, '']` -/
+theorem emptykey_cex :
+    (compareTop (Cfg.default Flags.init false) cexE1 cexE2).map Res.diffs = .ok 2 ∧ eqv cexE1 cexE2 ∧
+      (∀ x ∈ listItems cexE1 ++ listItems cexE2, ∀ y ∈ listItems cexE1 ++ listItems cexE2, pyStr x = pyStr y → x = y) := by
+  refine ⟨by decide, ?_, by decide⟩
+  simp [cexE1, cexE2, eqv, eqvK, eqvRecs, isRec, List.filter]
+
+/-- `[[{'a': 1, 'a': 2}]]` — not a Python value: the inner dictionary repeats a key -/
+def cexD : Val := .list .n0 [.list .n0 [.dict .n0 [(['a'], .int 1), (['a'], .int 2)]]]
+
+/-- without `ItemsRefl` (unique keys) the statement fails in the model: the nested list is a non-record
+item and equal to itself, but comparing it with itself reports the second `a` against the first -/
+theorem dupkey_cex :
+    (compareTop (Cfg.default Flags.init false) cexD cexD).map Res.diffs = .ok 1 ∧ eqv cexD cexD ∧
+      NoStrCollision cexD cexD := by
+  refine ⟨by decide, ?_, by unfold NoStrCollision; decide⟩
+  simp [cexD, eqv, eqvRecs, isRec]
 
 end N0.Compare
